@@ -340,3 +340,42 @@ func num(v Value) (float64, bool) {
 	}
 	return 0, false
 }
+
+// Reaches reports whether the container target is v itself or reachable from v
+// (storing v into target would then create a cyclic value).
+func Reaches(v Value, target Value) bool {
+	seen := map[Value]bool{}
+	var walk func(x Value) bool
+	walk = func(x Value) bool {
+		switch c := x.(type) {
+		case *List:
+			if Value(c) == target {
+				return true
+			}
+			if seen[c] {
+				return false
+			}
+			seen[c] = true
+			for _, e := range c.E {
+				if walk(e) {
+					return true
+				}
+			}
+		case *Map:
+			if Value(c) == target {
+				return true
+			}
+			if seen[c] {
+				return false
+			}
+			seen[c] = true
+			for _, e := range c.M {
+				if walk(e) {
+					return true
+				}
+			}
+		}
+		return false
+	}
+	return walk(v)
+}
